@@ -245,6 +245,29 @@ class StrFixed(Val):
         return []
 
 
+class LangRaw(Val):
+    """with-language value whose language and text bytes are unconstrained (possibly invalid UTF-8)"""
+
+    def __init__(self, tagname, n1, n2):
+        self.tagname, self.n1, self.n2 = tagname, n1, n2
+
+    def alloc(self, c):
+        self.i1 = c.take(self.n1)
+        self.i2 = c.take(self.n2)
+
+    def body(self):
+        return be16(self.n1) + xs(self.i1) + be16(self.n2) + xs(self.i2)
+
+    def rust(self):
+        return 'IppValue::NoValue'
+
+    def check(self, v):
+        return 'assert!(true)'
+
+    def canonical_assumes(self):
+        return []
+
+
 class OutOfBand(Val):
     """no-value / unknown / unsupported and unregistered tags: the library keeps the raw octets"""
 
@@ -457,6 +480,8 @@ class Shape:
                 return '{' + ', '.join('%s: [%s]' % (n, ', '.join(dv(q) for q in vs)) for n, vs in v.members) + '}'
             if isinstance(v, OutOfBand):
                 return 'tag0x%02x(%dB)' % (v.tagbyte, v.n)
+            if isinstance(v, LangRaw):
+                return '%s(%d+%dB raw)' % (v.tagname, v.n1, v.n2)
             if isinstance(v, (LangFixed, StrFixed)):
                 return '%s(fixed %r)' % (v.tagname, v.text)
             if isinstance(v, Str):
@@ -513,6 +538,14 @@ def catalogue(seed=0):
     add('e_name_utf8', [(P, [Attr(n1, [StrFixed('nameWithoutLanguage', '\u65e5\u672c'), Fixed('boolean')])])], tags={'ENC'}, note='3-byte characters')
     add('g_op_joburi', [(O, [Attr('job-uri', [Str('uri', 3)]), Attr(n2, [Fixed('integer')])])], tags={'G', 'ORD'},
         note='job-uri (an operation target attribute) and one more operation attribute')
+    add('l_rawlang', [(P, [Attr(n1, [LangRaw('textWithLanguage', 1, 2)])])], tags={'RAW'},
+        note='textWithLanguage whose language and text octets are unconstrained (invalid UTF-8 included): must be accepted')
+    add('g_op_prefix', [(O, [Attr('job-ids', [Fixed('integer')]), Attr('printer-uri-supported', [Str('uri', 2)])])], tags={'G', 'ORD'},
+        note='operation attributes whose names merely START with a pinned name (job-id, printer-uri): ordinary attributes, must be emitted')
+    add('p_job_then_op', [(J, [Attr(n1, [Fixed('integer')])]), (O, [Attr(n2, [Fixed('boolean')])])], tags={'G', 'PARSE_ONLY'},
+        note='operation group NOT first on the wire: groups must come back in wire order')
+    add('p_op_op', [(O, [Attr(n1, [Fixed('integer')])]), (O, [Attr(n1, [Fixed('enum')])])], tags={'G', 'PARSE_ONLY', 'REP'},
+        note='repeated operation group: two groups in wire order')
     # A: sets
     add('a2_int', [(P, [Attr(n1, [Fixed('integer'), Fixed('integer')])])], tags={'A'})
     add('a2_kw', [(P, [Attr(n1, [Str('keyword', 2), Str('keyword', 1)])])], tags={'A'})
